@@ -7,7 +7,7 @@ import os, subprocess, shutil, random
 import vlib
 
 SCENARIOS = ['find_find_unregistered', 'find_find', 'getattr_private_private', 'create_create', 'create_find', 'createsession_find', 'destroy_getattr',
-             'setattr_getlabel', 'logout_getprivate', 'open_close', 'sign_sign', 'generate_generate', 'find_create', 'getattr_destroy']
+             'setattr_getlabel', 'logout_getprivate', 'open_close', 'sign_sign', 'generate_generate', 'find_create', 'getattr_destroy', 'closelast_openlogin']
 
 
 def run(thrdrv, lib, sc, k):
